@@ -46,11 +46,11 @@ def custom_main(tier, seed):
     import sys
     import time
     from vf import fuzz
-    from vf.main import log, VERIF
+    from vf.main import log, VERIF, evidence_dir
     rc = fuzz.run_fuzz("C07", tier, seed, FUZZ_TARGETS, sys.modules[__name__], t0=time.time())
     if rc != 0:
         return rc
-    with open(os.path.join(VERIF, "evidence", "C07.json")) as f:
+    with open(os.path.join(evidence_dir(), "C07.json")) as f:
         classes = json.load(f)["coverage"]["classes"]
     missing = [t.name + ":" + c for t in FUZZ_TARGETS for c in MUST_COVER if classes.get(t.name + ":" + c, 0) == 0]
     if missing:
